@@ -205,6 +205,11 @@ struct World : simio::Env {
     sim::note(s);
   }
 
+  void kill_probe(int proc) {
+    const ProcSpec &sp = plan->procs[(size_t)proc];
+    if (sp.start == ST_PHASE2) counters["probe.sweeper_killed"]++;
+    else if (sp.is_restart()) counters["probe.restart_process_killed"]++;
+  }
   bool kill_due(int proc, int at) {
     bool due = false;
     for (size_t i = 0; i < plan->kills.size(); i++) {
@@ -246,6 +251,7 @@ struct World : simio::Env {
       counters["fault.kill"]++;
       counters[std::string("fault.kill_in_write_") + (fileid == simio::FILE_F ? "jobfile" : "backup")]++;
       ps[proc].killed = true;
+      kill_probe(proc);
       note("KILL p" + std::to_string(proc) + " inside write of " + (fileid == simio::FILE_F ? "F" : "F~") + " after " + std::to_string(wf.bytes) + "/" + std::to_string(n) + " bytes");
       return wf;
     }
@@ -787,6 +793,9 @@ struct Jobs {
         p.procs.push_back(s);
       }
     }
+    // crashes are not a privilege of the first generation: a restart process that joined, or a sweeper working on the
+    // remains of earlier crashes, may be killed as well (crash during recovery)
+    for (auto &k : p.kills) if (r.chance(0.3)) k.proc = (int)r.below((uint64_t)p.procs.size());
     { long strides[8] = {0, 0, 0, 0, 1, 2, 3, 7}; p.alloc_stride = strides[r.below(8)]; }
     p.pick_strategy(r);
     if (tier == "enum") {
@@ -1070,6 +1079,7 @@ struct Jobs {
             }
             if (term) w.counters["fault.sigterm_default_action"]++;
             w.ps[q].killed = true;
+            w.kill_probe(q);
             w.counters["fault.kill"]++;
             w.counters[std::string("fault.kill_at_") + killat_name[at]]++;
             if (simio::lock_mode_of(sp)) w.counters["probe.kill_while_holding_file_lock"]++;
